@@ -29,6 +29,8 @@ EXHAUSTIVE_NOTE = "box ns x nswin x overlap enumerated completely (see rule); ra
 ASSUMPTIONS = ["splicing sums are evaluated on arrays only for ns <= 200000; larger random cases check intervals only",
                "with more than 16 windows the nested loops and the nwin/tscale reads happen at three positions of the "
                "outer loop only (drawn by Hypothesis, first/middle/last in the box), not at every iteration"]
+# thorough tier: the same property driven by Atheris / libFuzzer (coverage-guided) as a second engine
+ATHERIS = {"runs": 300000, "seconds": 120}
 BUDGET = {"quick": 10000, "thorough": 400000}
 BOX = {"quick": (160, 32), "thorough": (600, 80)}
 
